@@ -36,7 +36,7 @@ theorem filter_covers_spent_inputs (txs : List Tx) (tx : Tx) (c : Cell) (htx : t
     rw [mem_elemSet]
     simp only [blockElems, List.mem_flatMap]
     refine ⟨tx, htx, ?_⟩
-    simp only [txElems, hcb, List.mem_append, List.mem_flatMap]
+    simp only [txElems, hcb, Bool.false_eq_true, if_false, List.mem_append, List.mem_flatMap]
     exact Or.inl ⟨some c, hc, hx⟩
   refine ⟨hsub _ (by simp [cellElems]), ?_⟩
   intro t ht
